@@ -346,6 +346,13 @@ Definition l2gw_handoff_byrange (a : aconfig) (s c : N) : bool :=
   | None => false
   end.
 
+(* FindVLANConfig as an index: position of the first range whose S-VLAN list contains s *)
+Fixpoint rescan_index (rs : list arange) (s : N) (i : nat) : option nat :=
+  match rs with
+  | [] => None
+  | r :: rest => if matches_svlan r s then Some i else rescan_index rest s (S i)
+  end.
+
 (* (group name, AAA policy) the l2gw trigger authenticates a pair with: the policy of the matched range (60d937f),
    for pairs whose group is wholesale-switched *)
 Definition l2gw_policy (a : aconfig) (s c : N) : option (str * str) :=
